@@ -1,7 +1,244 @@
 import Mustache.Basic.LineIO
+import Mustache.Model.Dispatcher
+
+/-!
+`driver dispatch trace` — reads the schedule-point trace logged by harness/dispatch_driver.cpp
+(one event per line: `T <seq> <disp> <event> <thread> <arg>`), elaborates it into actions of
+`Mustache.Dispatcher` and checks that they form a run of the model (`step` never returns `none`,
+and the outcome of every worker critical section is the one the implementation reported).
+
+`driver dispatch pfor` — lines `b e tc threads`: prints the model's `parallelFor` split.
+
+Elaboration of events into actions is 1:1 except for three reads the implementation performs
+without the mutex, whose linearisation point lies *before* the event that reports them:
+* `kWaiterDone` (the waiter saw its exit condition): accepted if the condition held in the model at
+  some point since the waiter's previous event (`spinExit` only changes the waiter's mode, so it
+  commutes with the other threads' actions);
+* `kWorkerExit` between `kShutdownBegin` and `kShutdownFlag`: `sdFlag` is placed just before it;
+* a worker critical section that read `terminate == false` but is reported after `kShutdownFlag`
+  (and necessarily before `kShutdownCleared`, which needs the mutex): evaluated before `sdFlag`.
+These are counted as `floats` in the output.
+-/
 namespace Mustache.Driver.Dispatch
-/-- stub, replaced when the model lands -/
-def main (_args : List String) : IO UInt32 := do
-  IO.eprintln "driver: model Dispatch not built yet"
-  return 2
+open Mustache.Dispatcher
+
+structure DState where
+  id : Nat
+  s : State
+  termPending : Bool := false
+  exitOk : Bool := false
+  events : Nat := 0
+  actions : Nat := 0
+  floats : Nat := 0
+  rejected : Option String := none
+
+def pcName : Pc → String
+  | .idle => "idle"
+  | .sleeping => "sleeping"
+  | .woken => "woken"
+  | .running t q => s!"running({t},{q})"
+  | .relock q => s!"relock({q})"
+  | .exited => "exited"
+
+def modeName : Mode → String
+  | .api => "api"
+  | .inline => "inline"
+  | .waitLoop q => s!"waitLoop({q})"
+  | .spin q => s!"spin({q})"
+  | .sdFlag => "sdFlag"
+  | .sdCleared => "sdCleared"
+  | .joining => "joining"
+  | .destroyed => "destroyed"
+
+def spinCond (s : State) : Bool :=
+  match s.mode with
+  | .spin q => if q = 0 then s.tw == s.n else !s.locked q
+  | _ => false
+
+def reject (d : DState) (why : String) : DState := { d with rejected := some why }
+
+/-- apply one model action -/
+def act (d : DState) (a : Action) (what : String) : DState :=
+  match d.rejected with
+  | some _ => d
+  | none =>
+    match step d.s a with
+    | some s' => { d with s := s', actions := d.actions + 1 }
+    | none => reject d s!"model action {what} not enabled (mode={modeName d.s.mode} tw={d.s.tw} terminate={d.s.terminate})"
+
+def expectPc (d : DState) (th : Nat) (ok : Pc → Bool) (what : String) : DState :=
+  match d.rejected with
+  | some _ => d
+  | none =>
+    let p := pcAt d.s th
+    if ok p then d else reject d s!"thread {th}: implementation reports {what}, model has {pcName p}"
+
+inductive ScanOut
+  | sleep | pop (q : Nat) | exit
+deriving DecidableEq
+
+def scanMatches (o : ScanOut) (p : Pc) : Bool :=
+  match o, p with
+  | .sleep, .sleeping => true
+  | .pop q, .running _ q' => q == q'
+  | .exit, .exited => true
+  | _, _ => false
+
+def scanName : ScanOut → String
+  | .sleep => "sleep"
+  | .pop q => s!"pop({q})"
+  | .exit => "exit"
+
+/-- worker critical section with reported outcome `o` -/
+def scan (d : DState) (th : Nat) (o : ScanOut) : DState :=
+  match d.rejected with
+  | some _ => d
+  | none =>
+    -- place a pending `terminate = true` before an exit
+    let d := if o = ScanOut.exit ∧ d.termPending ∧ !d.s.terminate then
+        { (act d .sdFlag "sdFlag(floated)") with termPending := false, floats := d.floats + 1 } else d
+    match step d.s (.wScan th) with
+    | none => reject d s!"worker {th}: critical section not enabled, model pc {pcName (pcAt d.s th)}"
+    | some s' =>
+      if scanMatches o (pcAt s' th) then { d with s := s', actions := d.actions + 1 }
+      else
+        -- late report of a read of `terminate == false`
+        if d.s.mode = Mode.sdFlag ∧ o ≠ ScanOut.exit then
+          let pre := { d.s with terminate := false, mode := .api }
+          match step pre (.wScan th) with
+          | some s1 =>
+            if scanMatches o (pcAt s1 th) then
+              { d with s := { s1 with terminate := true, mode := .sdFlag }, actions := d.actions + 1, floats := d.floats + 1 }
+            else reject d s!"worker {th}: implementation outcome {scanName o}, model outcome {pcName (pcAt s1 th)}"
+          | none => reject d s!"worker {th}: critical section not enabled"
+        else reject d s!"worker {th}: implementation outcome {scanName o}, model outcome {pcName (pcAt s' th)} (findQueue={findQueue d.s})"
+
+def isRunningQ (q : Nat) : Pc → Bool
+  | .running _ q' => q == q'
+  | _ => false
+
+def isRunningT (t : Nat) : Pc → Bool
+  | .running t' _ => t == t'
+  | _ => false
+
+def handle (d : DState) (ev : String) (th arg : Nat) (argI : Int) : DState :=
+  let d := { d with events := d.events + 1 }
+  let d := match ev with
+  | "X_createQueue" => act d (.createQueue argI) ev
+  | "kCreateQueue" => if d.s.nq == arg then d else reject d s!"createQueue returned queue {arg}, model has {d.s.nq}"
+  | "X_setSingle" => act d (.setSingle (arg != 0)) ev
+  | "kSubmit" => act d (.submit arg) s!"submit({arg})"
+  | "kSubmitNotified" => d
+  | "kSubmitInline" => act d .submitInline ev
+  | "X_waitBegin" => { (act d (.waitBegin arg) s!"waitBegin({arg})") with exitOk := false }
+  | "kWaiterBeforeLock" =>
+    -- `parallelFor` calls `waitForParallelFinish` itself: the call starts here
+    if d.s.mode = Mode.api then { (act d (.waitBegin arg) s!"waitBegin({arg})") with exitOk := false } else d
+  | "kWaiterAfterLock" => d
+  | "kWaiterEmpty" => { (act d .waitEmpty ev) with exitOk := false }
+  | "kWaiterPop" => expectPc (act d .waitPop ev) 0 (isRunningQ arg) s!"pop from queue {arg}"
+  | "kWaiterBlocked" => act d .waitBlocked ev
+  | "kWaiterRelocked" => act d (.relock 0) ev
+  | "kWaiterSpin" => act d .spinRetry ev
+  | "kWaiterDone" =>
+    (match d.rejected with
+     | some _ => d
+     | none =>
+      match step d.s .spinExit with
+      | some s' => { d with s := s', actions := d.actions + 1 }
+      | none =>
+        match d.s.mode with
+        | .spin _ =>
+          if d.exitOk then { d with s := { d.s with mode := .api }, actions := d.actions + 1, floats := d.floats + 1 }
+          else reject d s!"wait returned but the exit condition never held in the model since the helper loop ended (mode={modeName d.s.mode} tw={d.s.tw} n={d.s.n})"
+        | _ => reject d s!"wait returned in mode {modeName d.s.mode}")
+  | "X_waitReturn" => if d.s.mode = Mode.api then d else reject d s!"wait returned to the caller in mode {modeName d.s.mode}"
+  | "kTaskBegin" => expectPc d th (isRunningQ arg) s!"task begin (queue {arg})"
+  | "Body" => expectPc d th (isRunningT arg) s!"body of task {arg}"
+  | "kTaskEnd" =>
+    if th = 0 ∧ d.s.mode = Mode.inline then act (act d (.taskEnd 0) "inline taskEnd") (.relock 0) "inline relock"
+    else act d (.taskEnd th) s!"taskEnd({th})"
+  | "kWorkerBeforeLock" => d
+  | "kWorkerAfterLock" => d
+  | "kWorkerBeforeWait" => scan d th .sleep
+  | "kWorkerAfterWake" => if pcAt d.s th = Pc.sleeping then act d (.wake th) s!"wake({th})" else d
+  | "kWorkerPop" => scan d th (.pop arg)
+  | "kWorkerRelocked" => act d (.relock th) s!"relock({th})"
+  | "kWorkerExit" => scan d th .exit
+  | "kShutdownBegin" => { d with termPending := true }
+  | "kShutdownFlag" =>
+    if d.s.terminate then { d with termPending := false } else { (act d .sdFlag ev) with termPending := false }
+  | "kShutdownCleared" => act d .sdClear ev
+  | "kShutdownNotified" => act d .sdNotify ev
+  | "kShutdownJoined" => act d .sdJoin ev
+  | _ => reject d s!"unknown event {ev}"
+  match d.rejected with
+  | some _ => d
+  | none => if spinCond d.s then { d with exitOk := true } else d
+
+def pendingTotal (s : State) : Nat :=
+  ((List.range (s.nq + 1)).map (fun q => (s.jobs q).length)).foldl (· + ·) 0
+
+def runningTotal (s : State) : Nat := s.pcs.countP (fun p => match p with | .running _ _ => true | _ => false)
+
+structure TState where
+  ds : List DState := []
+  bad : Option String := none
+
+def updateD (ds : List DState) (id : Nat) (f : DState → DState) : List DState :=
+  ds.map (fun d => if d.id = id then f d else d)
+
+def traceLine (st : TState) (l : String) : IO TState := do
+  match words l with
+  | ["T", seq, dId, ev, th, arg] =>
+    match dId.toNat?, th.toNat?, arg.toInt? with
+    | some dId, some th, some argI =>
+      let arg := argI.toNat
+      if ev = "X_new" then
+        return { st with ds := st.ds ++ [{ id := dId, s := init arg }] }
+      else
+        match st.ds.find? (·.id = dId) with
+        | none => return { st with bad := some s!"event for unknown dispatcher {dId} at seq {seq}" }
+        | some d0 =>
+          if d0.rejected.isSome then return st
+          let d1 := handle d0 ev th arg argI
+          let d1 := match d1.rejected with
+            | some why => if d0.rejected.isNone then { d1 with rejected := some s!"seq={seq} event={ev} thread={th} arg={arg}: {why}" } else d1
+            | none => d1
+          return { st with ds := updateD st.ds dId (fun _ => d1) }
+    | _, _, _ => return { st with bad := some s!"malformed trace line: {l}" }
+  | _ => return { st with bad := some s!"malformed trace line: {l}" }
+
+def traceMain : IO UInt32 := do
+  let st ← foldStdin traceLine {}
+  match st.bad with
+  | some b => IO.println s!"error {b}"; return 1
+  | none => pure ()
+  let mut rc : UInt32 := 0
+  for d in st.ds do
+    match d.rejected with
+    | some why =>
+      IO.println s!"model {d.id} rejected {why}"
+      rc := 3
+    | none =>
+      IO.println s!"model {d.id} accepted events={d.events} actions={d.actions} floats={d.floats} mode={modeName d.s.mode} submitted={d.s.nextId} started={d.s.started.length} done={d.s.done.length} dropped={d.s.dropped.length} pending={pendingTotal d.s} running={runningTotal d.s}"
+  return rc
+
+def showRanges (l : List (Nat × Nat)) : String :=
+  " ".intercalate (l.map (fun r => s!"({r.1},{r.2})"))
+
+def pforLine (_ : Unit) (l : String) : IO Unit := do
+  match natList? (words l) with
+  | some [b, e, tc, threads] =>
+    let pinned := pforTaskCountPinned (e - b) tc threads
+    let rs := pforRanges b e tc threads
+    IO.println s!"pfor {b} {e} {tc} {threads} pinned_count={pinned} n={rs.length} {showRanges rs}"
+  | _ => IO.println s!"error malformed pfor line: {l}"
+
+def main (args : List String) : IO UInt32 :=
+  match args with
+  | ["trace"] => traceMain
+  | ["pfor"] => do foldStdin pforLine (); return 0
+  | _ => do IO.eprintln "usage: driver dispatch <trace|pfor>"; return 2
+
 end Mustache.Driver.Dispatch
